@@ -177,6 +177,15 @@ func enabled(r *storage.LifecycleRule) bool { return r.Status == storage.Lifecyc
 type fver struct {
 	Ver
 	lm int64
+	// since: when the version stopped being the current one (creation of the version
+	// that superseded it); fixed at that moment - later deletions or replacements of
+	// the superseding version do not change it. 0 while current.
+	since int64
+	// newer0: how many noncurrent versions were newer than this one when the sweep
+	// started (-1: did not exist or was current then). Versions that other rules
+	// remove during the same sweep still count: the retention clause is judged on
+	// the history the sweep started from.
+	newer0 int
 }
 
 type fkey struct {
@@ -213,7 +222,11 @@ func newFake(c *Case) *fake {
 	for _, k := range c.Keys {
 		fk := &fkey{name: k.Key}
 		for _, v := range k.Versions {
-			fk.vs = append(fk.vs, &fver{Ver: v, lm: v.Created + v.Bump})
+			fk.vs = append(fk.vs, &fver{Ver: v, lm: v.Created + v.Bump, newer0: -1})
+		}
+		for i := 1; i < len(fk.vs); i++ {
+			fk.vs[i].since = fk.vs[i-1].Created
+			fk.vs[i].newer0 = i - 1
 		}
 		f.keys = append(f.keys, fk)
 	}
@@ -257,6 +270,10 @@ func (f *fake) pushTop(k *fkey, nv *fver) {
 	if f.c.LMModel == "pithos" && len(k.vs) > 0 {
 		k.vs[0].lm = nv.Created
 	}
+	if len(k.vs) > 0 && k.vs[0].since == 0 {
+		k.vs[0].since = nv.Created
+	}
+	nv.newer0 = -1
 	k.vs = append([]*fver{nv}, k.vs...)
 }
 
@@ -292,7 +309,14 @@ func (f *fake) runAdversary() {
 	f.pending = nil
 }
 
-func (f *fake) afterList() {
+// afterList counts completed listings (the last page of a paginated walk): client
+// writes are injected between a complete listing and the calls that follow it,
+// never between two pages of one walk (what a torn walk re-delivers depends on
+// the storage's marker semantics, which this fake does not claim to model).
+func (f *fake) afterList(truncated bool) {
+	if truncated {
+		return
+	}
 	f.listCalls++
 	for _, a := range f.c.Adv {
 		if a.AfterList == f.listCalls {
@@ -351,7 +375,7 @@ func (f *fake) ListObjects(ctx context.Context, b storage.BucketName, o storage.
 		}
 		res.Objects = append(res.Objects, obj)
 	}
-	f.afterList()
+	f.afterList(res.IsTruncated)
 	return res, nil
 }
 
@@ -405,7 +429,7 @@ func (f *fake) ListObjectVersions(ctx context.Context, b storage.BucketName, o s
 		}
 		res.Versions = append(res.Versions, ov)
 	}
-	f.afterList()
+	f.afterList(res.IsTruncated)
 	return res, nil
 }
 
@@ -430,7 +454,7 @@ func (f *fake) ListMultipartUploads(ctx context.Context, b storage.BucketName, o
 		}
 		res.Uploads = append(res.Uploads, storage.Upload{Key: metadatastore.MustNewObjectKey(u.Key), UploadId: metadatastore.MustNewUploadId(u.ID), Initiated: tm(u.Initiated)})
 	}
-	f.afterList()
+	f.afterList(res.IsTruncated)
 	return res, nil
 }
 
@@ -463,7 +487,15 @@ func (f *fake) GetObjectTagging(ctx context.Context, b storage.BucketName, key s
 // noncurrent (creation of its successor) and how many noncurrent versions
 // (objects and delete markers alike - the reading that protects least) are newer.
 func noncurrentInfo(k *fkey, i int) (since int64, newer int) {
-	return k.vs[i-1].Created, i - 1
+	v := k.vs[i]
+	since, newer = v.since, i-1
+	if since == 0 {
+		since = k.vs[i-1].Created
+	}
+	if v.newer0 > newer {
+		newer = v.newer0
+	}
+	return
 }
 
 func (f *fake) nearBoundary(due int64) {
@@ -765,6 +797,11 @@ func run(env *ev.Env, c Case) (o ev.Outcome) {
 	}
 	r.ReconcileOnce(context.Background(), nil)
 
+	if os.Getenv("C25_TRACE") != "" {
+		for _, a := range f.actions {
+			fmt.Printf("TRACE %v %s | %s\n", a.ok, a.what, a.why)
+		}
+	}
 	o.Class("versioning:" + c.Versioning)
 	o.Sub = len(f.actions)
 	o.Count("actions", len(f.actions))
@@ -1330,7 +1367,7 @@ func genCase(t *rapid.T, env *ev.Env) Case {
 			if c.Versioning == "suspended" && rapid.Bool().Draw(t, "advNull") {
 				kind = "null"
 			}
-			c.Adv = append(c.Adv, Adv{KeyIdx: rapid.IntRange(0, nk-1).Draw(t, "advKey"), AfterList: rapid.IntRange(1, 12).Draw(t, "advAfter"), Kind: kind})
+			c.Adv = append(c.Adv, Adv{KeyIdx: rapid.IntRange(0, nk-1).Draw(t, "advKey"), AfterList: rapid.IntRange(1, 6).Draw(t, "advAfter"), Kind: kind})
 		}
 	}
 	return c
